@@ -42,6 +42,7 @@ func register(prop string, name string, weight int, fn simFunc) {
 func init() {
 	register("C05", "histories", 7, simC05Histories)
 	register("C05", "cuts", 1, simC05Cuts)
+	register("C20", "world", 1, simC20World)
 }
 
 func pickSim(prop string, index uint64) simEntry {
